@@ -9,9 +9,19 @@
     terminator or a continuation token; consequently extra terminators at those places, and the choice
     between `;` and newline (both are the token `StmtEnd`), do not change the stream the parser sees.
 
-  Not in this file (DESIGN.md §6 C09): `skipWs_spec`, `int_separators`, `hex_escape_ascii`, `lex_render`.
+  * second half ("The lexer and layout", helpers in Lemmas/C09*.lean): `tokens_independent_of_position`,
+    `skipWs_spec`, `layout_invariance(_at_boundary)`, `newline_is_semicolon(_at_boundary)`, `int_separators`.
+
+  Not in this file (DESIGN.md §6 C09): `hex_escape_ascii`, `lex_render`.
 -/
 import SeedModel.Lex
+import SeedProofs.Lemmas.Scan
+import SeedProofs.Lemmas.C09Pos
+import SeedProofs.Lemmas.C09Layout
+import SeedProofs.Lemmas.C09Local
+import SeedProofs.Lemmas.C09Tok
+import SeedProofs.Lemmas.C09Raw
+import SeedProofs.Lemmas.C09Int
 namespace Seed.C09
 open Seed
 
@@ -235,5 +245,329 @@ example :
     ([⟨(1, 1), .Ident c!"a", (1, 1)⟩, ⟨(1, 2), .StmtEnd, (1, 2)⟩, ⟨(1, 3), .Ident c!"b", (1, 3)⟩] : List Span).map (·.tok)
       = ([⟨(1, 1), .Ident c!"a", (2, 0)⟩, ⟨(2, 0), .StmtEnd, (2, 0)⟩, ⟨(2, 1), .Ident c!"b", (2, 1)⟩] : List Span).map (·.tok) := by
   decide
+
+/-! ## The lexer and layout
+
+  Helper definitions (Lemmas/C09*.lean): `kind` erases every position of a `nextToken` result
+  (`TokK.tok t rest` / `TokK.err (eraseLoc e)` / `TokK.eof`); `Layout p`: `p` is blanks then possibly one
+  `#…` comment without newline; `CommentClosed p r`: if `p` contains a comment, `r` is empty or starts
+  with a newline; `LexTo src ts rest`: lexing `src` yields the tokens `ts` and stops at the token boundary
+  before `rest`; `RawEq a b`: same raw tokens and same kind of error from any position with any fuel;
+  `SameTokens a b`: `lexAll a` and `lexAll b` agree up to positions. -/
+
+theorem kind_tok_iff {res : TokRes} {t : Token} {r : List Char} :
+    kind res = .tok t r ↔ ∃ sp s', res = .tok sp s' ∧ sp.tok = t ∧ s'.rest = r := by
+  cases res with
+  | eof => simp [kind]
+  | err e => simp [kind]
+  | tok sp s' =>
+    simp only [kind, TokK.tok.injEq, TokRes.tok.injEq]
+    constructor
+    · rintro ⟨h1, h2⟩; exact ⟨sp, s', ⟨rfl, rfl⟩, h1, h2⟩
+    · rintro ⟨_, _, ⟨rfl, rfl⟩, h1, h2⟩; exact ⟨h1, h2⟩
+
+/-! ### L1: tokens do not depend on the scanner's line/column -/
+
+/-- **L1** the token (kind and payload) and the remaining characters returned by `nextToken` depend
+    only on the remaining characters of the scanner, not on its line/column; errors agree up to their
+    location (same constructor, same character / raw-text payload) -/
+theorem tokens_independent_of_position {s s' : Scanner} (h : s.rest = s'.rest) :
+    (nextToken s = .eof ↔ nextToken s' = .eof) ∧
+    (∀ sp t, nextToken s = .tok sp t →
+      ∃ sp' t', nextToken s' = .tok sp' t' ∧ sp'.tok = sp.tok ∧ t'.rest = t.rest) ∧
+    (∀ e, nextToken s = .err e → ∃ e', nextToken s' = .err e' ∧ eraseLoc e' = eraseLoc e) := by
+  have hk := nextToken_kind_indep h
+  cases h1 : nextToken s <;> cases h2 : nextToken s' <;> rw [h1, h2] at hk <;>
+    simp only [kind, TokK.tok.injEq, TokK.err.injEq, reduceCtorEq] at hk <;>
+    simp only [reduceCtorEq, TokRes.tok.injEq, TokRes.err.injEq, false_implies, implies_true,
+      and_true, true_and, iff_self]
+  · rintro sp t ⟨rfl, rfl⟩
+    exact ⟨_, _, ⟨rfl, rfl⟩, hk.1.symm, hk.2.symm⟩
+  · intro e he
+    subst he
+    exact ⟨_, rfl, hk.symm⟩
+
+-- hypotheses satisfiable: the same text at two different places
+example : (⟨c!"x = 1", 1, 1⟩ : Scanner).rest = (⟨c!"x = 1", 7, 3⟩ : Scanner).rest := rfl
+example : ∃ sp t, nextToken ⟨c!"x = 1", 1, 1⟩ = .tok sp t := ⟨_, _, rfl⟩
+example : ∃ e, nextToken ⟨c!"?", 1, 1⟩ = .err e := ⟨_, rfl⟩
+
+/-- the location-erased error determines constructor and payload: only the location may differ -/
+theorem eraseLoc_eq_iff (e e' : LexError) :
+    eraseLoc e = eraseLoc e' ↔
+      match e, e' with
+      | .Unexpected _ a, .Unexpected _ b => a = b
+      | .IntOverflow _ a, .IntOverflow _ b => a = b
+      | .UnescapedDollar _, .UnescapedDollar _ => True
+      | .InvalidInterpolationStart _ a, .InvalidInterpolationStart _ b => a = b
+      | .InvalidEscapeChar _ a, .InvalidEscapeChar _ b => a = b
+      | .InvalidHexChar _ a, .InvalidHexChar _ b => a = b
+      | _, _ => False := by
+  cases e <;> cases e' <;> simp [eraseLoc]
+
+/-- **L1**, lifted: the raw token stream (positions erased) and the kind of the error that ends it
+    depend only on the remaining characters -/
+theorem lexRaw_independent_of_position (n : Nat) {s s' : Scanner} (h : s.rest = s'.rest) :
+    (lexRaw n s).1.map Span.tok = (lexRaw n s').1.map Span.tok ∧
+    (lexRaw n s).2.map eraseLoc = (lexRaw n s').2.map eraseLoc :=
+  lexRaw_kind_indep n h
+
+/-- the position-free pieces: the same holds for every sub-lexer -/
+theorem sublexers_independent_of_position {s s' : Scanner} (h : s.rest = s'.rest) :
+    s.skipWs.rest = s'.skipWs.rest ∧ exK (lexInt s) = exK (lexInt s') ∧
+    (∀ interp, exK (lexStr interp s) = exK (lexStr interp s')) ∧
+    (∀ interp a, accK (strLoop interp s.rest s.line s.col a) = accK (strLoop interp s'.rest s'.line s'.col a)) ∧
+    (∀ c1, (lexSym c1 s).1 = (lexSym c1 s').1 ∧ (lexSym c1 s).2.rest = (lexSym c1 s').2.rest) :=
+  ⟨Scanner.skipWs_rest_congr h, lexInt_indep h, fun i => lexStr_indep i h,
+    fun i a => by rw [h]; exact strLoop_indep i _ _ _ _ _ a, fun c1 => lexSym_indep c1 h⟩
+
+/-! ### L2: what `skipWs` removes -/
+
+/-- **L2** `skipWs` removes a prefix `p` of blanks and at most one final comment (`Layout p`; a comment
+    runs up to, not including, the next newline or to the end of input), and what is left does not
+    start with a blank or `#`: the removed prefix is maximal -/
+theorem skipWs_spec (s : Scanner) :
+    ∃ p, s.rest = p ++ s.skipWs.rest ∧ Layout p ∧ CommentClosed p s.skipWs.rest ∧
+      (∀ x, s.skipWs.rest.head? = some x → ¬ isBlank x ∧ x ≠ '#') :=
+  skipWs_layout s.rest s.line s.col
+
+/-- a layout text contains no newline (a newline is a token) -/
+theorem layout_no_newline {p : List Char} (h : Layout p) : '\n' ∉ p :=
+  fun hm => h.no_newline _ hm rfl
+
+/-- **L2**, converse: such a decomposition is the one `skipWs` finds -/
+theorem skipWs_spec_converse {p r : List Char} (hp : Layout p) (hc : CommentClosed p r)
+    (hh : ∀ x, r.head? = some x → ¬ isBlank x ∧ x ≠ '#') (l c : Nat) :
+    (Scanner.skipWs ⟨p ++ r, l, c⟩).rest = r :=
+  skipWs_of_layout hp r hc hh l c
+
+-- hypotheses satisfiable: two blanks, a tab and a comment before a newline
+example : Layout c!"  \t# note" :=
+  .blank (by decide) (.blank (by decide) (.blank (by decide) (.comment (by decide))))
+example : CommentClosed c!"  \t# note" c!"\nx" := fun _ => Or.inr rfl
+example : ∀ x, (c!"\nx" : List Char).head? = some x → ¬ isBlank x ∧ x ≠ '#' := by
+  intro x hx; injection hx with hx; subst hx; decide
+example : (Scanner.skipWs ⟨c!"  \t# note\nx", 1, 1⟩).rest = c!"\nx" := by decide
+
+/-! ### L3: layout does not change the tokens -/
+
+/-- **L3** layout in front of a token never changes the raw token stream (positions erased) nor the
+    kind of error — whatever the starting positions and the fuel -/
+theorem layout_invariance {p r : List Char} (hp : Layout p) (hc : CommentClosed p r)
+    (n l c l' c' : Nat) :
+    (lexRaw n ⟨p ++ r, l, c⟩).1.map Span.tok = (lexRaw n ⟨r, l', c'⟩).1.map Span.tok ∧
+    (lexRaw n ⟨p ++ r, l, c⟩).2.map eraseLoc = (lexRaw n ⟨r, l', c'⟩).2.map eraseLoc :=
+  lexRaw_skip_layout hp r hc n l c l' c'
+
+/-- … and so the parser sees the same tokens for `p ++ r` as for `r` -/
+theorem layout_invariance_lexAll {p r : List Char} (hp : Layout p) (hc : CommentClosed p r) :
+    SameTokens (p ++ r) r :=
+  RawEq.sameTokens (fun m l c l' c' => lexRaw_skip_layout hp r hc m l c l' c')
+
+example : Layout c!"\t " ∧ CommentClosed c!"\t " c!"print(1)" :=
+  ⟨.blank (by decide) (.blank (by decide) .nil), fun h => by revert h; decide⟩
+
+/-- every prefix of the raw token stream ends at a token boundary (`LexTo` hypotheses are satisfiable
+    for every text) -/
+theorem token_boundaries_exist (n : Nat) (s : Scanner) (k : Nat) :
+    ∃ rest, LexTo s.rest (((lexRaw n s).1.take k).map Span.tok) rest :=
+  LexTo.of_lexRaw n s k
+
+/-- a `LexTo` prefix is a prefix of the raw stream: with `n` units of fuel beyond the tokens of `ts`,
+    `lexRaw` yields `ts` and then the stream of `rest` -/
+theorem lexTo_lexRaw {src rest : List Char} {ts : List Token} (h : LexTo src ts rest)
+    (n l c l' c' : Nat) :
+    (lexRaw (ts.length + n) ⟨src, l, c⟩).1.map Span.tok =
+        ts ++ (lexRaw n ⟨rest, l', c'⟩).1.map Span.tok ∧
+    (lexRaw (ts.length + n) ⟨src, l, c⟩).2.map eraseLoc = (lexRaw n ⟨rest, l', c'⟩).2.map eraseLoc :=
+  h.lexRaw n l c l' c'
+
+/-- **token locality** (the lookahead lemma behind the boundary theorems): a token depends on its own
+    characters and on how the following text starts, and a separator (blank, `#`, newline, `;`) there is
+    as good as whatever followed before.  The exception is an unterminated string literal at the end of
+    input (accepted by the model as by the implementation): it would swallow the inserted text. -/
+theorem token_locality {a x y : List Char} {t : Token} (l c l' c' : Nat)
+    (h : kind (nextToken ⟨a ++ x, l, c⟩) = .tok t x)
+    (he : x.head? = y.head? ∨ ∃ e y', y = e :: y' ∧ isSep e)
+    (hstr : x = [] → y = [] ∨ isStrTok t = false) :
+    kind (nextToken ⟨a ++ y, l', c'⟩) = .tok t y :=
+  nextToken_local l c l' c' h he hstr
+
+example : kind (nextToken ⟨c!"ab" ++ c!"+1", 1, 1⟩) = .tok (.Ident c!"ab") c!"+1" := by decide
+example : ∃ e y', c!" +1" = e :: y' ∧ isSep e := ⟨' ', c!"+1", rfl, by decide⟩
+-- the excluded case is real: an unterminated literal at the end of input swallows appended layout
+example : kind (nextToken ⟨c!"\"ab" ++ [], 1, 1⟩) = .tok (.StrLiteral c!"ab") [] ∧
+    kind (nextToken ⟨c!"\"ab" ++ c!" ", 1, 1⟩) = .tok (.StrLiteral c!"ab ") [] := by decide
+
+/-- **L3**, general: layout inserted at *any* token boundary changes neither the raw token stream nor
+    the kind of error.  `pre` is lexed as `ts` up to the boundary before `r`; `p` is inserted there.
+    Side conditions: a comment in `p` must be closed by `r` (newline or end of input); and if `r` is
+    empty, the last token of `pre` must not be a string literal (it could be unterminated). -/
+theorem layout_invariance_at_boundary {pre p r : List Char} {ts : List Token}
+    (h : LexTo (pre ++ r) ts r) (hp : Layout p) (hc : CommentClosed p r)
+    (hstr : r = [] → ∀ t, ts.getLast? = some t → isStrTok t = false) :
+    RawEq (pre ++ (p ++ r)) (pre ++ r) := by
+  cases hp with
+  | nil => exact RawEq.refl _
+  | @blank e p' hb hp' =>
+    have h2 : LexTo (pre ++ (e :: p' ++ r)) ts (e :: p' ++ r) :=
+      h.replace_rest pre rfl _ (Or.inr ⟨e, p' ++ r, rfl, Or.inl hb⟩) (fun hr => Or.inr (hstr hr))
+    exact RawEq.of_lexTo h2 h (fun m l c l' c' =>
+      lexRaw_skip_layout (Layout.blank hb hp') r hc m l c l' c')
+  | @comment t ht =>
+    have h2 : LexTo (pre ++ ('#' :: t ++ r)) ts ('#' :: t ++ r) :=
+      h.replace_rest pre rfl _ (Or.inr ⟨'#', t ++ r, rfl, Or.inr (Or.inl rfl)⟩)
+        (fun hr => Or.inr (hstr hr))
+    exact RawEq.of_lexTo h2 h (fun m l c l' c' =>
+      lexRaw_skip_layout (Layout.comment ht) r hc m l c l' c')
+
+/-- … and so the parser sees the same tokens, up to positions -/
+theorem layout_invariance_at_boundary_lexAll {pre p r : List Char} {ts : List Token}
+    (h : LexTo (pre ++ r) ts r) (hp : Layout p) (hc : CommentClosed p r)
+    (hstr : r = [] → ∀ t, ts.getLast? = some t → isStrTok t = false) :
+    SameTokens (pre ++ (p ++ r)) (pre ++ r) :=
+  (layout_invariance_at_boundary h hp hc hstr).sameTokens
+
+-- hypotheses satisfiable: the boundary `x=` | `1`; and `x=` | `\n1`, where a comment may be inserted
+-- (before `1` it could not: the comment would not be closed and would swallow the `1`)
+example : LexTo (c!"x=" ++ c!"1") [.Ident c!"x", .Equals] c!"1" :=
+  .cons 1 1 (mid := c!"=1") (by decide) (.cons 1 2 (mid := c!"1") (by decide) (.nil _))
+example : LexTo (c!"x=" ++ c!"\n1") [.Ident c!"x", .Equals] c!"\n1" ∧ Layout c!" # c" ∧
+    CommentClosed c!" # c" c!"\n1" :=
+  ⟨.cons 1 1 (mid := c!"=\n1") (by decide) (.cons 1 2 (mid := c!"\n1") (by decide) (.nil _)),
+   .blank (by decide) (.comment (by decide)), fun _ => Or.inr rfl⟩
+
+-- the theorem applied, and the same fact checked by evaluation
+example : SameTokens (c!"x=" ++ (c!" # c" ++ c!"\n1")) (c!"x=" ++ c!"\n1") :=
+  layout_invariance_at_boundary_lexAll (ts := [.Ident c!"x", .Equals])
+    (.cons 1 1 (mid := c!"=\n1") (by decide) (.cons 1 2 (mid := c!"\n1") (by decide) (.nil _)))
+    (.blank (by decide) (.comment (by decide))) (fun _ => Or.inr rfl) (fun h => by cases h)
+example : (lexAll c!"x= # c\n1").1.map Span.tok = [.Ident c!"x", .Equals, .IntLiteral 1] ∧
+    (lexAll c!"x=\n1").1.map Span.tok = [.Ident c!"x", .Equals, .IntLiteral 1] := by decide
+
+/-! ### L4: newline is `;` -/
+
+/-- **L4** a newline and a `;` are the same token `StmtEnd`, leaving the same text -/
+theorem newline_is_semicolon (r : List Char) (l c l' c' : Nat) :
+    ∃ sp t sp' t', nextToken ⟨'\n' :: r, l, c⟩ = .tok sp t ∧ nextToken ⟨';' :: r, l', c'⟩ = .tok sp' t' ∧
+      sp.tok = Token.StmtEnd ∧ sp'.tok = Token.StmtEnd ∧ t.rest = r ∧ t'.rest = r := by
+  obtain ⟨sp, t, h1, h2, h3⟩ := kind_tok_iff.mp (nextToken_stmtEnd '\n' (Or.inl rfl) r l c)
+  obtain ⟨sp', t', h1', h2', h3'⟩ := kind_tok_iff.mp (nextToken_stmtEnd ';' (Or.inr rfl) r l' c')
+  exact ⟨sp, t, sp', t', h1, h1', h2, h2', h3, h3'⟩
+
+theorem newline_is_semicolon_raw (r : List Char) : RawEq ('\n' :: r) (';' :: r) :=
+  RawEq.of_kind (fun l c l' c' => by
+    rw [nextToken_stmtEnd '\n' (Or.inl rfl), nextToken_stmtEnd ';' (Or.inr rfl)])
+
+/-- **L4**, lifted: replacing a `;` at a token boundary (so: not inside a string literal) by a newline
+    changes neither the raw token stream nor the kind of error -/
+theorem newline_is_semicolon_at_boundary {pre r : List Char} {ts : List Token}
+    (h : LexTo (pre ++ ';' :: r) ts (';' :: r)) : RawEq (pre ++ '\n' :: r) (pre ++ ';' :: r) := by
+  have h2 : LexTo (pre ++ '\n' :: r) ts ('\n' :: r) :=
+    h.replace_rest pre rfl _ (Or.inr ⟨'\n', r, rfl, Or.inr (Or.inr (Or.inl rfl))⟩)
+      (fun hr => by cases hr)
+  exact RawEq.of_lexTo h2 h (newline_is_semicolon_raw r)
+
+/-- … and the other way round -/
+theorem semicolon_is_newline_at_boundary {pre r : List Char} {ts : List Token}
+    (h : LexTo (pre ++ '\n' :: r) ts ('\n' :: r)) : RawEq (pre ++ ';' :: r) (pre ++ '\n' :: r) := by
+  have h2 : LexTo (pre ++ ';' :: r) ts (';' :: r) :=
+    h.replace_rest pre rfl _ (Or.inr ⟨';', r, rfl, Or.inr (Or.inr (Or.inr rfl))⟩)
+      (fun hr => by cases hr)
+  exact RawEq.of_lexTo h2 h (newline_is_semicolon_raw r).symm
+
+theorem newline_is_semicolon_lexAll {pre r : List Char} {ts : List Token}
+    (h : LexTo (pre ++ ';' :: r) ts (';' :: r)) : SameTokens (pre ++ '\n' :: r) (pre ++ ';' :: r) :=
+  (newline_is_semicolon_at_boundary h).sameTokens
+
+example : LexTo (c!"a" ++ ';' :: c!"b") [.Ident c!"a"] (';' :: c!"b") :=
+  .cons 1 1 (mid := c!";b") (by decide) (.nil _)
+
+/-! ### L5: `_` digit separators -/
+
+/-- **L5** a digit string `ds` and the same digits with `_` inserted anywhere after the first digit
+    (`ds'`), followed by a character that is neither a digit nor `_` (or by the end of input), give the
+    same `IntLiteral` token — or both overflow `i64` -/
+theorem int_separators (ds ds' x : List Char) (hne : ds ≠ [])
+    (hdig : ∀ ch ∈ ds, isAsciiDigit ch = true)
+    (hfil : ds'.filter (fun ch => ch ≠ '_') = ds) (hhead : ds'.head? = ds.head?)
+    (hall : ∀ ch ∈ ds', isAsciiDigit ch = true ∨ ch = '_')
+    (hx : ∀ e, x.head? = some e → isIntChar e = false) (l c l' c' : Nat) :
+    (decimalValue ds ≤ i64Max →
+      kind (nextToken ⟨ds' ++ x, l, c⟩) = .tok (.IntLiteral (Int.ofNat (decimalValue ds))) x ∧
+      kind (nextToken ⟨ds ++ x, l', c'⟩) = .tok (.IntLiteral (Int.ofNat (decimalValue ds))) x) ∧
+    (¬ decimalValue ds ≤ i64Max →
+      kind (nextToken ⟨ds' ++ x, l, c⟩) = .err (.IntOverflow (0, 0) ds') ∧
+      kind (nextToken ⟨ds ++ x, l', c'⟩) = .err (.IntOverflow (0, 0) ds)) := by
+  cases ds with
+  | nil => exact absurd rfl hne
+  | cons d ds0 =>
+    cases ds' with
+    | nil => simp at hhead
+    | cons d' ds0' =>
+      simp only [List.head?_cons, Option.some.injEq] at hhead
+      subst hhead
+      have hd : isAsciiDigit d' = true := hdig d' (List.mem_cons_self ..)
+      have hall1 : ∀ ch ∈ d' :: ds0, isIntChar ch = true :=
+        fun ch hc => isIntChar_of_digit (hdig ch hc)
+      have hall2 : ∀ ch ∈ d' :: ds0', isIntChar ch = true := by
+        intro ch hc
+        rcases hall ch hc with h | h
+        · exact isIntChar_of_digit h
+        · subst h; rfl
+      have e1 := nextToken_int d' ds0' x l c hd hall2 hx
+      have e2 := nextToken_int d' ds0 x l' c' hd hall1 hx
+      rw [hfil] at e1
+      rw [filter_digits hdig] at e2
+      constructor
+      · intro hle
+        rw [e1, e2]
+        simp only [hle, if_true, and_self]
+      · intro hle
+        rw [e1, e2]
+        simp only [hle, if_false, and_self]
+
+/-- **L5**, lifted: the raw token streams coincide -/
+theorem int_separators_raw (ds ds' x : List Char) (hne : ds ≠ [])
+    (hdig : ∀ ch ∈ ds, isAsciiDigit ch = true)
+    (hfil : ds'.filter (fun ch => ch ≠ '_') = ds) (hhead : ds'.head? = ds.head?)
+    (hall : ∀ ch ∈ ds', isAsciiDigit ch = true ∨ ch = '_')
+    (hx : ∀ e, x.head? = some e → isIntChar e = false) (hle : decimalValue ds ≤ i64Max) :
+    RawEq (ds' ++ x) (ds ++ x) :=
+  RawEq.of_tok (t := .IntLiteral (Int.ofNat (decimalValue ds))) (ra := x) (rb := x)
+    (fun l c => ((int_separators ds ds' x hne hdig hfil hhead hall hx l c 0 0).1 hle).1)
+    (fun l c => ((int_separators ds ds' x hne hdig hfil hhead hall hx 0 0 l c).1 hle).2)
+    (RawEq.refl x)
+
+/-- **L5** anywhere in a program: the digit string starts at a token boundary -/
+theorem int_separators_at_boundary {pre : List Char} {ts : List Token} (ds ds' x : List Char)
+    (hne : ds ≠ []) (hdig : ∀ ch ∈ ds, isAsciiDigit ch = true)
+    (hfil : ds'.filter (fun ch => ch ≠ '_') = ds) (hhead : ds'.head? = ds.head?)
+    (hall : ∀ ch ∈ ds', isAsciiDigit ch = true ∨ ch = '_')
+    (hx : ∀ e, x.head? = some e → isIntChar e = false) (hle : decimalValue ds ≤ i64Max)
+    (h : LexTo (pre ++ (ds ++ x)) ts (ds ++ x)) :
+    RawEq (pre ++ (ds' ++ x)) (pre ++ (ds ++ x)) ∧ SameTokens (pre ++ (ds' ++ x)) (pre ++ (ds ++ x)) := by
+  have hh : (ds ++ x).head? = (ds' ++ x).head? := by
+    cases ds with
+    | nil => exact absurd rfl hne
+    | cons d ds0 =>
+      cases ds' with
+      | nil => simp at hhead
+      | cons d' ds0' => simpa using hhead.symm
+  have hnil : ds ++ x = [] → False := by
+    intro h0; exact hne (List.append_eq_nil_iff.mp h0).1
+  have h2 : LexTo (pre ++ (ds' ++ x)) ts (ds' ++ x) :=
+    h.replace_rest pre rfl _ (Or.inl hh) (fun hr => (hnil hr).elim)
+  have := RawEq.of_lexTo h2 h (int_separators_raw ds ds' x hne hdig hfil hhead hall hx hle)
+  exact ⟨this, this.sameTokens⟩
+
+-- hypotheses satisfiable: `1_000_` and `1000` before `)`
+example :
+    let ds := c!"1000"; let ds' := c!"1_000_"; let x := c!")"
+    ds ≠ [] ∧ (∀ ch ∈ ds, isAsciiDigit ch = true) ∧ ds'.filter (fun ch => ch ≠ '_') = ds ∧
+    ds'.head? = ds.head? ∧ (∀ ch ∈ ds', isAsciiDigit ch = true ∨ ch = '_') ∧
+    (∀ e, x.head? = some e → isIntChar e = false) ∧ decimalValue ds ≤ i64Max := by
+  refine ⟨by decide, by decide, by decide, by decide, by decide, ?_, by decide⟩
+  intro e he; injection he with he; subst he; decide
 
 end Seed.C09
